@@ -52,6 +52,9 @@ type c11Conn struct {
 	c     *Client
 	user  string
 	authd bool
+	// doomed: the connection's user was deleted while it was attached: the server de-authenticates it at
+	// once and closes it as soon as its reader notices (before or after answering one more command)
+	doomed bool
 }
 
 func checkC11(ctx *Ctx) {
@@ -64,7 +67,7 @@ func checkC11(ctx *Ctx) {
 		return
 	}
 	quietLogs()
-	n := ctx.N(160, 3000)
+	n := ctx.N(600, 4000)
 	for i := 0; i < n; i++ {
 		if !ctx.Mine(i) {
 			continue
@@ -170,7 +173,7 @@ func c11History(ctx *Ctx, hi int) {
 			canAct := !requirePass || (c.authd && exists && u.Enabled)
 			if err != nil {
 				// the server closed the connection: legitimate only for a connection of a deleted user
-				if !exists {
+				if !exists || c.doomed {
 					c.c.Close()
 					*c = *newConn()
 					continue
@@ -286,6 +289,13 @@ func c11History(ctx *Ctx, hi int) {
 			}
 			_ = v
 			if u != "default" {
+				if _, had := tab[u]; had {
+					for _, c := range conns {
+						if c.c != nil && c.user == u {
+							c.authd, c.doomed = false, true
+						}
+					}
+				}
 				delete(tab, u)
 			}
 			ctx.Class("deluser|" + map[bool]string{true: "default", false: "other"}[u == "default"])
